@@ -193,10 +193,14 @@ Lemma wide_step_ext em code tl d :
   ext_step d (wide_step em code tl true) (wide_step em code (tl ++ d) true).
 Proof.
   unfold wide_step.
-  destruct (enc_is_wide em && (code <? 256) && negb (within_double_byte [code] 0 0 =? 0)); [|cbn; reflexivity].
+  destruct (enc_is_wide em && (code <? 256)); [|cbn; reflexivity].
+  destruct (within_double_byte [code] 0 0) as [r1|e]; [|cbn; reflexivity].
+  destruct (negb (r1 =? 0)); [|cbn; reflexivity].
   destruct tl as [|k r]; [cbn; auto|].
   cbn [app].
-  destruct ((k <? 256) && negb (within_double_byte [code; k] 0 1 =? 0)); cbn; reflexivity.
+  destruct (k <? 256); [|cbn; reflexivity].
+  destruct (within_double_byte [code; k] 0 1) as [r2|e]; [|cbn; reflexivity].
+  destruct (negb (r2 =? 0)); cbn; reflexivity.
 Qed.
 
 (* one unfolding step of the fixpoint, without unfolding anything else *)
@@ -528,9 +532,13 @@ Qed.
 Lemma wide_step_progress em code tl more evs rest :
   wide_step em code tl more = Some (OOk (evs, rest)) -> evs <> [] /\ is_suffix rest tl.
 Proof.
-  unfold wide_step. destruct (enc_is_wide em && (code <? 256) && negb (within_double_byte [code] 0 0 =? 0)); [|discriminate].
+  unfold wide_step. destruct (enc_is_wide em && (code <? 256)); [|discriminate].
+  destruct (within_double_byte [code] 0 0) as [r1|e]; [|discriminate].
+  destruct (negb (r1 =? 0)); [|discriminate].
   destruct tl as [|k r]; [destruct more; discriminate|].
-  destruct ((k <? 256) && negb (within_double_byte [code; k] 0 1 =? 0)); [|discriminate].
+  destruct (k <? 256); [|discriminate].
+  destruct (within_double_byte [code; k] 0 1) as [r2|e]; [|discriminate].
+  destruct (negb (r2 =? 0)); [|discriminate].
   intros H; inversion H; subst. split; [discriminate|]. exists [k]; reflexivity.
 Qed.
 
@@ -996,10 +1004,7 @@ Lemma process_esc em tl more :
 Proof.
   rewrite process_eq, keyconv_esc.
   assert (Ew : wide_step em 27 tl more = None).
-  { unfold wide_step.
-    assert (E : enc_is_wide em && (27 <? 256) && negb (within_double_byte [27] 0 0 =? 0) = false)
-      by (destruct em; vm_compute; reflexivity).
-    rewrite E. reflexivity. }
+  { destruct em; reflexivity. }
   assert (Eu : utf8_step em 27 tl more = None).
   { unfold utf8_step.
     assert (E : enc_is_utf8 em && (127 <? 27) && (27 <? 256) = false) by (destruct em; vm_compute; reflexivity).
@@ -1154,7 +1159,7 @@ Lemma utf8_no_lead : forall b, 0 <= b < 256 ->
 Proof. apply byte_forall. vm_compute. reflexivity. Qed.
 
 Lemma wdb_low : forall b, 0 <= b < 256 ->
-  implb (b <? 128) (within_double_byte [b] 0 0 =? 0) = true.
+  implb (b <? 128) (match within_double_byte [b] 0 0 with Ok r => r =? 0 | Err _ => false end) = true.
 Proof. apply byte_forall. vm_compute. reflexivity. Qed.
 
 Lemma unknown_bytes_pass_through_proof em b tl more :
@@ -1172,7 +1177,9 @@ Proof.
   assert (Ew : wide_step em b tl more = None).
   { unfold wide_step. destruct em; try reflexivity. cbn [enc_is_wide andb].
     pose proof (wdb_low b (conj H0 H1)) as Hw. rewrite Hem in Hw. cbn [implb] in Hw.
-    rewrite Hw. rewrite andb_false_r. reflexivity. }
+    destruct (b <? 256); [|reflexivity].
+    destruct (within_double_byte [b] 0 0) as [r1|e1]; [|discriminate Hw].
+    rewrite Hw. reflexivity. }
   rewrite Ew.
   destruct em.
   - (* utf8 *)
@@ -1256,8 +1263,54 @@ Proof.
   - congruence.
 Qed.
 
-Lemma wide_step_no_err em code tl more e : wide_step em code tl more <> Some (OErr e).
-Proof. unfold wide_step. break_match; discriminate. Qed.
+(* the translated within_double_byte on the one- and two-byte strings process_keyqueue hands it:
+   its value for every pair of bytes, by computation over all 65536 pairs *)
+Definition wdb1_spec (a : Z) : Z := if 128 <=? a then 1 else 0.
+Definition wdb2_spec (a b : Z) : Z :=
+  if (64 <=? b) && (b <? 127) then (if 129 <=? a then 2 else 0)
+  else if b <? 128 then 0
+  else if 128 <=? a then 2 else 1.
+Definition res_is (r : result Z) (v : Z) : bool := match r with Ok x => x =? v | Err _ => false end.
+Definition wdb_chk (a b : Z) : bool :=
+  res_is (within_double_byte [a] 0 0) (wdb1_spec a) && res_is (within_double_byte [a; b] 0 1) (wdb2_spec a b).
+
+Lemma byte_forall2 (f : Z -> Z -> bool) :
+  forallb (fun n => forallb (fun m => f (Z.of_nat n) (Z.of_nat m)) (seq 0 256)) (seq 0 256) = true ->
+  forall a b, 0 <= a < 256 -> 0 <= b < 256 -> f a b = true.
+Proof.
+  intros H a b Ha Hb.
+  pose proof (byte_forall (fun a => forallb (fun m => f a (Z.of_nat m)) (seq 0 256)) H a Ha) as H1.
+  cbv beta in H1. exact (byte_forall (fun b => f a b) H1 b Hb).
+Qed.
+
+Lemma wdb_table : forall a b, 0 <= a < 256 -> 0 <= b < 256 -> wdb_chk a b = true.
+Proof. apply byte_forall2. vm_compute. reflexivity. Qed.
+
+Lemma res_is_eq r v : res_is r v = true -> r = Ok v.
+Proof. destruct r as [x|e]; cbn; [|discriminate]. intros H. apply Z.eqb_eq in H. subst. reflexivity. Qed.
+
+Lemma wdb1_value a : 0 <= a < 256 -> within_double_byte [a] 0 0 = Ok (wdb1_spec a).
+Proof.
+  intros Ha. pose proof (wdb_table a 0 Ha ltac:(lia)) as H. unfold wdb_chk in H.
+  apply andb_true_iff in H. destruct H as [H _]. apply res_is_eq; exact H.
+Qed.
+
+Lemma wdb2_value a b : 0 <= a < 256 -> 0 <= b < 256 -> within_double_byte [a; b] 0 1 = Ok (wdb2_spec a b).
+Proof.
+  intros Ha Hb. pose proof (wdb_table a b Ha Hb) as H. unfold wdb_chk in H.
+  apply andb_true_iff in H. destruct H as [_ H]. apply res_is_eq; exact H.
+Qed.
+
+Lemma wide_step_no_err em code tl more e :
+  is_byte code -> Forall is_byte tl -> wide_step em code tl more <> Some (OErr e).
+Proof.
+  intros Hc Ht. unfold wide_step. destruct (enc_is_wide em && (code <? 256)); [|discriminate].
+  rewrite (wdb1_value code Hc). destruct (negb (wdb1_spec code =? 0)); [|discriminate].
+  destruct tl as [|k r]; [destruct more; discriminate|].
+  inversion Ht as [|? ? Hk Hr]; subst.
+  destruct (k <? 256); [|discriminate]. rewrite (wdb2_value code k Hc Hk).
+  destruct (negb (wdb2_spec code k =? 0)); discriminate.
+Qed.
 
 Lemma utf8_step_no_err em code tl more e : utf8_step em code tl more <> Some (OErr e).
 Proof. unfold utf8_step. break_match; discriminate. Qed.
@@ -1269,16 +1322,17 @@ Proof.
   destruct (zs_eqb name str_esc || contains_sub str_meta name); discriminate.
 Qed.
 
-(* never_raises: on a non-empty code list process_keyqueue returns or asks for more input *)
-Lemma process_no_err em more : forall c e, c <> [] -> process_keyqueue em c more <> OErr e.
+(* never_raises: on a non-empty byte string process_keyqueue returns or asks for more input *)
+Lemma process_no_err em more : forall c e, Forall is_byte c -> c <> [] -> process_keyqueue em c more <> OErr e.
 Proof.
-  induction c as [|code tl IH]; intros e Hne; [congruence|].
+  induction c as [|code tl IH]; intros e Hb Hne; [congruence|].
+  inversion Hb as [|? ? Hcode Htl]; subst.
   rewrite process_eq.
   destruct ((32 <=? code) && (code <=? 126)); [discriminate|].
   destruct (assoc code keyconv); [discriminate|].
   destruct ((0 <? code) && (code <? 27)); [discriminate|].
   destruct ((27 <? code) && (code <? 32)); [discriminate|].
-  pose proof (wide_step_no_err em code tl more) as Hw.
+  pose proof (fun e0 => wide_step_no_err em code tl more e0 Hcode Htl) as Hw.
   destruct (wide_step em code tl more) as [[[evs' rest']| |e']|].
   1: discriminate. 1: discriminate. 1: intros _; eapply Hw; reflexivity.
   pose proof (utf8_step_no_err em code tl more) as Hu.
@@ -1294,19 +1348,21 @@ Proof.
   - intros H. apply meta_wrap_err in H. subst run.
     destruct (process_progress _ _ _ _ _ Ep) as [Hn _]. congruence.
   - discriminate.
-  - intros _. eapply (IH e'); [discriminate|reflexivity].
+  - intros _. eapply (IH e'); [exact Htl|discriminate|reflexivity].
 Qed.
 
-Lemma decode_no_err em more : forall codes e, decode em codes more <> PErr e.
+Lemma decode_no_err em more : forall codes e, Forall is_byte codes -> decode em codes more <> PErr e.
 Proof.
-  apply (list_len_ind (fun codes => forall e, decode em codes more <> PErr e)).
-  intros codes IH e. destruct codes as [|c tl]; [rewrite decode_nil; discriminate|].
+  apply (list_len_ind (fun codes => forall e, Forall is_byte codes -> decode em codes more <> PErr e)).
+  intros codes IH e Hb. destruct codes as [|c tl]; [rewrite decode_nil; discriminate|].
   rewrite decode_cons by discriminate.
   pose proof (process_no_err em more (c :: tl)) as Hp.
   destruct (process_keyqueue em (c :: tl) more) as [[run rest]| |e'] eqn:E; try discriminate.
-  - pose proof (IH rest (process_shorter _ _ _ _ _ E) e) as Hn.
+  - destruct (process_progress _ _ _ _ _ E) as [_ [p [_ Hpp]]].
+    assert (Hb' : Forall is_byte rest) by (rewrite Hpp in Hb; apply Forall_app in Hb; tauto).
+    pose proof (IH rest (process_shorter _ _ _ _ _ E) e Hb') as Hn.
     destruct (decode em rest more); cbn; congruence.
-  - exfalso. eapply Hp; [discriminate|reflexivity].
+  - exfalso. eapply Hp; [exact Hb|discriminate|reflexivity].
 Qed.
 
 (* ------------------------------------------------------------------ *)
@@ -1331,23 +1387,30 @@ Lemma decided_ignores_flag_proof em c r :
   process_keyqueue em c true = OOk r -> process_keyqueue em c false = OOk r.
 Proof. intros H. pose proof (process_flag em c) as Hf. rewrite H in Hf. exact Hf. Qed.
 
-(* a hooked Screen never raises, whatever is read and whenever the alarm fires *)
-Lemma step_no_err em st o e : step em st o <> Err e.
+(* a hooked Screen never raises, whatever bytes are read and whenever the alarm fires *)
+Lemma step_no_err em st o e : Forall is_byte (st ++ feed_bytes o) -> step em st o <> Err e.
 Proof.
-  destruct o as [bs|].
-  - rewrite step_feed. pose proof (decode_no_err em true (st ++ bs)) as Hn.
+  intros Hb. destruct o as [bs|].
+  - cbn [feed_bytes] in Hb. rewrite step_feed. pose proof (decode_no_err em true (st ++ bs)) as Hn.
     pose proof (decode_not_fuel em true (st ++ bs)) as Hf.
-    destruct (decode em (st ++ bs) true) as [d|d r|e0|]; try discriminate; [exfalso; eapply Hn; reflexivity|congruence].
-  - destruct st as [|c0 tl]; [discriminate|].
+    destruct (decode em (st ++ bs) true) as [d|d r|e0|]; try discriminate; [exfalso; eapply Hn; [exact Hb|reflexivity]|congruence].
+  - cbn [feed_bytes] in Hb. rewrite app_nil_r in Hb. destruct st as [|c0 tl]; [discriminate|].
     pose proof (timeout_step em (c0 :: tl) ltac:(discriminate)) as Ht.
     pose proof (decode_no_err em false (c0 :: tl)) as Hn.
-    destruct (decode em (c0 :: tl) false) as [d|d r|e0|]; try contradiction; [rewrite Ht; discriminate|exfalso; eapply Hn; reflexivity].
+    destruct (decode em (c0 :: tl) false) as [d|d r|e0|]; try contradiction;
+      [rewrite Ht; discriminate|exfalso; eapply Hn; [exact Hb|reflexivity]].
 Qed.
 
-Lemma run_no_err em : forall ops st, snd (run em st ops) = None.
+Lemma run_no_err em : forall ops st,
+  Forall is_byte (st ++ concat (map feed_bytes ops)) -> snd (run em st ops) = None.
 Proof.
-  induction ops as [|o ops IH]; intros st; [reflexivity|].
-  rewrite run_cons. pose proof (step_no_err em st o) as Hs.
-  destruct (step em st o) as [[cs st']|e]; [|exfalso; eapply Hs; reflexivity].
-  specialize (IH st'). destruct (run em st' ops) as [[a b] c]. exact IH.
+  induction ops as [|o ops IH]; intros st Hb; [reflexivity|].
+  rewrite run_cons. cbn [map concat] in Hb. rewrite app_assoc in Hb.
+  pose proof Hb as Hb1. apply Forall_app in Hb1. destruct Hb1 as [Hb1 Hb2].
+  pose proof (step_no_err em st o) as Hs.
+  destruct (step em st o) as [[cs st']|e] eqn:E; [|exfalso; eapply Hs; [exact Hb1|reflexivity]].
+  pose proof (step_conserves _ _ _ _ _ E) as Hc.
+  assert (Hb' : Forall is_byte (st' ++ concat (map feed_bytes ops))).
+  { apply Forall_app. split; [|exact Hb2]. rewrite <- Hc in Hb1. apply Forall_app in Hb1. tauto. }
+  specialize (IH st' Hb'). destruct (run em st' ops) as [[a b] c]. exact IH.
 Qed.
